@@ -26,7 +26,7 @@ RULE = (
 ASSUMPTIONS = [
     "super-majority thresholds are decided with the exact rational share (1/3, 1/2, 2/3, 3/4); at an exact threshold W = f V the mean must be within 1e-9 of 1/2, elsewhere on the correct side by more than 1e-12",
     "means are recomputed exactly (Fractions) from the per-ballot values the assorter returns; 1e-12 slack at exact thresholds",
-    "tally-based margins with enforce_rules=True are only compared on profiles without overvotes for plurality/approval (the plurality assorter does not judge validity)",
+    "tally-based margins with enforce_rules=True are only compared on profiles without overvotes for vote-for-k plurality (the plurality assorter does not judge validity); for approval contests, where any number of marks is valid, on every profile",
     "profiles with no card under the style filter are outside the quantifier (mean of nothing)",
 ]
 REQUIRE_VAC = ["profiles_of_thousands_of_ballots", "profiles_with_tie", "profiles_with_overvote", "exact_threshold_supermajority", "ballots_lacking_contest", "encoding_sweep_cases"]
@@ -151,7 +151,9 @@ def judge(m, prof, enc=(True, False)):
                                     out.append(("C02|mean-vs-values", f"Assorter.mean gives {fm}, exact mean of its own values is {float(mean)} (style {style})"))
                                 # (iv) tally margins
                                 for enforce in (False, True):
-                                    if enforce and any(sum(marks[i]) > k for i in pool):
+                                    # vote-for-k plurality: the assorter does not judge validity, so tallies under the rules are
+                                    # compared on profiles without overvotes; approval has no overvotes: compared on every profile
+                                    if enforce and kind == Contest.SOCIAL_CHOICE_FUNCTION.PLURALITY and any(sum(marks[i]) > k for i in pool):
                                         continue
                                     try:
                                         Contest.tally({"c0": contest(2, (0,), Contest.SOCIAL_CHOICE_FUNCTION.PLURALITY, cards=len(pool)), CID: con}, cvrs, enforce_rules=enforce)
@@ -161,8 +163,9 @@ def judge(m, prof, enc=(True, False)):
                                         out.append((f"C02|tally-margin|exception|{type(e).__name__}", f"tally / find_margin_from_tally raised {type(e).__name__}: {e}"))
                                         continue
                                     if abs(tm - float(2 * mean - 1)) > 1e-12:
-                                        out.append((f"C02|tally-margin|plurality", f"margin from tally {tm} but 2*mean-1 = {float(2*mean-1)} over the same {len(pool)} cards "
-                                                    f"(enforce_rules={enforce}, style {style})"))
+                                        out.append((f"C02|tally-margin|{'approval' if kind == Contest.SOCIAL_CHOICE_FUNCTION.APPROVAL else 'plurality'}",
+                                                    f"margin from tally {tm} but 2*mean-1 = {float(2*mean-1)} over the same {len(pool)} cards "
+                                                    f"({kind}, {k} winner(s), enforce_rules={enforce}, style {style})"))
                                 # a tally handed in by the caller, while the contest's own tally is absent or out of date
                                 given = {NAMES[c]: tally_pool(marks, pool, c) for c in range(m)}
                                 for own in (None, {NAMES[c]: 7 + c for c in range(m)}):
